@@ -215,6 +215,7 @@ type group struct {
 	conds    []condSpec
 	skels    []skelSpec
 	regexes  []regexSpec
+	srcs     []srcSpec
 }
 
 var groups []*group
@@ -337,6 +338,9 @@ func emitGroup(g *group) string {
 	}
 	for _, rs := range g.regexes {
 		emitRegexSpec(&b, rs)
+	}
+	for _, sp := range g.srcs {
+		emitSrc(&b, sp)
 	}
 	fmt.Fprintf(&b, "end Snowflake.Gen.%s\n", g.name)
 	return b.String()
